@@ -2,7 +2,7 @@
 """C08 -- activating and reading arbitrary tags terminates safely (structural clauses)."""
 import ast
 
-from ..model import norm, head, walk_no_nested, AnalysisError, FuncInfo, ClassInfo, enclosing_stmt, ancestors, live
+from ..model import norm, head, walk_no_nested, AnalysisError, FuncInfo, ClassInfo, enclosing_stmt, ancestors, live, last_live
 from ..cfg import cfg_of
 from ..resolve import Resolver, Ctx
 from ..escape import Escape, fmt_chain, items_sorted
@@ -143,23 +143,30 @@ def rule_escape(report, prog, res):
 
 def rule_length_vs_area(report, prog):
     specs = [
-        ('nfc.tag.tt1.Type1Tag.NDEF._read_ndef_data', 'tlv_l', ('tag_memory_size', 'self._capacity', 'capacity')),
-        ('nfc.tag.tt2.Type2Tag.NDEF._read_ndef_data', 'tlv_l', ('data_area_size', 'raw_capacity', 'self._capacity', 'capacity')),
-        ('nfc.tag.tt3.Type3Tag.NDEF._read_ndef_data', "attributes['ln']", ("attributes['nmaxb']", 'self._capacity', 'self.capacity')),
-        ('nfc.tag.tt4.Type4Tag.NDEF._read_ndef_data', 'nlen', ('self._capacity', 'self.capacity', 'mfs')),
+        ('nfc.tag.tt1.Type1Tag.NDEF._read_ndef_data', ('tlv_l', 'len(ndef)', 'len(tlv_v)'), ('tag_memory_size', 'self._capacity', 'capacity')),
+        ('nfc.tag.tt2.Type2Tag.NDEF._read_ndef_data', ('tlv_l', 'len(ndef)', 'len(tlv_v)'), ('data_area_size', 'raw_capacity', 'self._capacity', 'capacity')),
+        ('nfc.tag.tt3.Type3Tag.NDEF._read_ndef_data', ("attributes['ln']",), ("attributes['nmaxb']", 'self._capacity', 'self.capacity')),
+        ('nfc.tag.tt4.Type4Tag.NDEF._read_ndef_data', ('nlen',), ('self._capacity', 'self.capacity', 'mfs')),
     ]
-    for q, length, areas in specs:
+    for q, lengths, areas in specs:
+        length = lengths[0]
         f = prog.func(q)
         found = None
-        for e in ast.walk(f.node):
-            if isinstance(e, ast.Compare):
-                t = norm(e)
-                if length in t and any(a in t for a in areas):
-                    # offset-only loop conditions do not count: the length itself must be an operand
-                    ops = [norm(e.left)] + [norm(c) for c in e.comparators]
-                    if any(length in o for o in ops) and any(any(a in o for a in areas) for o in ops):
-                        found = t
-            if isinstance(e, ast.Call) and norm(e.func) == 'min' and any(length in norm(a) for a in e.args) and \
+        # the message value of the Type 1 / 2 readers is the value of the NDEF TLV: len(ndef) == tlv_l (read_tlv builds bytearray(tlv_l))
+        if len(lengths) > 1:
+            alias_ok = any(isinstance(st, ast.Assign) and norm(st.targets[0]) == 'ndef' and norm(st.value) == 'tlv_v' for st in ast.walk(f.node))
+            if not alias_ok:
+                lengths = lengths[:1]
+        for i in ast.walk(f.node):
+            # a refusing guard: `if <length> > <area>: return None / raise`
+            if isinstance(i, ast.If) and live(i.body) and isinstance(last_live(i.body), (ast.Return, ast.Raise)):
+                for e in ast.walk(i.test):
+                    if isinstance(e, ast.Compare):
+                        ops = [norm(e.left)] + [norm(c) for c in e.comparators]
+                        if any(any(ln in o for ln in lengths) for o in ops) and any(any(a in o for a in areas) for o in ops):
+                            found = norm(e)
+            e = i
+            if isinstance(e, ast.Call) and norm(e.func) == 'min' and any(any(ln in norm(a) for ln in lengths) for a in e.args) and \
                     any(any(ar in norm(a) for ar in areas) for a in e.args):
                 found = norm(e)
         report.check(found is not None, 'C08-R2', key(q, 'declared length is checked against / clamped to the data area', length), f.loc(),
@@ -381,6 +388,17 @@ def activate_tt1""", 'C08-R1'),
     ('cc-padding-one-short', 'nfc.tag.tt4', '            capabilities += (15-len(capabilities)) * b"\\0"  # for unpack', '            capabilities += (14-len(capabilities)) * b"\\0"  # for unpack', 'C08-R'),
     ('cclen-length-weaker', 'nfc.tag.tt4', "            if not (cclen and len(cclen) == 2):", "            if not (cclen and len(cclen) >= 1):", 'C08-R1'),
     ('tt2-nak-test-order', 'nfc.tag.tt2', "        if len(data) == 1 and data[0] & 0xFA == 0x00:", "        if data[0] & 0xFA == 0x00 and len(data) == 1:", 'C08-R1'),
+    ('tt2-length-vs-capacity-dropped', 'nfc.tag.tt2', """            if ndef is not None and len(ndef) > self._capacity:
+                log.debug("ndef message length exceeds the data area")
+                return None
+""", "", 'C08-R2'),
+    ('tt3-length-vs-capacity-logged-only', 'nfc.tag.tt3', """            if attributes['ln'] > self._capacity:
+                log.debug("ndef message length exceeds the data area")
+                return None
+""", """            if attributes['ln'] > self._capacity:
+                log.debug("ndef message length exceeds the data area")
+""", 'C08-R2'),
+    ('tt4-length-vs-capacity-wrong-operand', 'nfc.tag.tt4', "                if nlen > self._capacity:", "                if nlen > 65535:", 'C08-R2'),
 ]
 MUTANTS = [m for m in MUTANTS if m[4] != 'C08-NONE']
 
